@@ -154,6 +154,14 @@ class AbstractDataset:
     def trimmed_after_convolution_from(self, kernel_shape) -> "AbstractDataset":
         dataset = copy.copy(self)
 
+        # cached grids / convolver / w_tilde describe the untrimmed mask: the trimmed dataset must recompute them
+        for key in [
+            key
+            for key in dataset.__dict__
+            if isinstance(getattr(type(dataset), key, None), type(AbstractDataset.grids))
+        ]:
+            del dataset.__dict__[key]
+
         dataset.data = dataset.data.trimmed_after_convolution_from(
             kernel_shape=kernel_shape
         )
